@@ -19,6 +19,7 @@ The record sequence is read by the oracle with its own complement table and part
 from __future__ import annotations
 
 import itertools
+import traceback
 
 from Bio.Seq import Seq
 
@@ -98,35 +99,33 @@ def _k_reverse_wrap(clause, facts):
 def _k_gap_restart(clause, facts):
     """ find_intergenic_areas sets `last = cds.end - padding` without max(): a later-sorted gene that
         ends inside an earlier gene moves the start of the next gap back into the earlier gene.
-        Must not hide: excess overlap into a gene that is not sorted before (and ending after) such
-        a later gene, or into an origin-spanning gene. """
-    if not facts.get("gene_end_regression"):
+        Must not hide: excess overlap into a gene that does not contain the end of a later-sorted
+        gene, or into an origin-spanning gene; missing/unexpected ORFs away from such a gene. """
+    if not facts.get("later_gene_ends_inside_earlier_gene"):
         return False
     if clause == "find-overlap-exceeds-allowance":
-        return facts.get("overlapped_gene_precedes_regressing_gene") is True
+        return facts.get("overlapped_gene_contains_later_gene_end") is True
     if clause == "find-unexpected-orf":
-        return facts.get("excess_only_into_genes_preceding_regressing_gene") is True
+        return facts.get("reaches_into_gene_containing_later_gene_end") is True
     if clause == "find-missing-orf":
-        return facts.get("extended_version_exceeds_into_gene_preceding_regressing_gene") is True
+        return facts.get("longer_version_reaches_into_gene_containing_later_gene_end") is True
     return False
 
 
-@findings.classifier("c15_origin_spanning_gene_blocks_search")
+@findings.classifier("c15_origin_spanning_gene_as_whole_record")
 def _k_origin_gene(clause, facts):
-    """ a gene spanning the origin has location.start == 0 and location.end == L, so the linear gap
-        walk treats the whole searched range as covered. Must not hide: missing ORFs when no
-        origin-spanning gene intersects the searched range. """
-    return clause == "find-missing-orf" and facts.get("origin_spanning_gene_in_scope") is True
-
-
-@findings.classifier("c15_origin_gene_double_allowance")
-def _k_origin_gene_double(clause, facts):
-    """ in an origin-spanning area the last `padding` bases before and the first after the origin are
-        joined into one gap although both lie in the same origin-spanning gene: an ORF there overlaps
-        that gene by up to twice the allowance. Must not hide: excess overlap with any other gene. """
-    return (clause in ("find-overlap-exceeds-allowance", "find-unexpected-orf")
-            and facts.get("overlapped_gene_spans_origin") is True and facts.get("orf_wraps") is True
-            and facts.get("overlap", 10 ** 9) <= 2 * facts.get("max_overlap", 0))
+    """ a gene spanning the origin has location.start == 0 and location.end == L; the linear gap walk
+        takes it for a gene covering the whole record: sorted first it blocks the whole searched
+        range (ORFs missing), sorted later its stretch after the origin is not protected, and the
+        allowance is granted on both sides of the origin for one gap. Must not hide: missing ORFs
+        when no origin-spanning gene intersects the searched range; excess overlap into other genes. """
+    if clause == "find-missing-orf":
+        return facts.get("origin_spanning_gene_in_scope") is True
+    if clause == "find-overlap-exceeds-allowance":
+        return facts.get("overlapped_gene_spans_origin") is True
+    if clause == "find-unexpected-orf":
+        return facts.get("reaches_into_origin_spanning_gene") is True
+    return False
 
 
 @findings.classifier("c15_origin_area_assert_short_gene")
@@ -141,9 +140,13 @@ def _k_origin_assert(clause, facts):
 @findings.classifier("c15_origin_gap_filtered_before_join")
 def _k_origin_gap_filter(clause, facts):
     """ the minimum gap length is applied to the stretches before and after the origin separately,
-        before they are joined. Must not hide: missing ORFs in gaps whose both sides pass the filter. """
-    return (clause == "find-missing-orf" and facts.get("gap_through_origin") is True
-            and facts.get("gap_side_shorter_than_minimum") is True)
+        before they are joined. Must not hide: missing ORFs in gaps whose both sides pass the filter,
+        unexpected ORFs that are not a cut-off piece of such a gap's ORF. """
+    if clause == "find-missing-orf":
+        return facts.get("gap_through_origin") is True and facts.get("gap_side_shorter_than_minimum") is True
+    if clause == "find-unexpected-orf":
+        return facts.get("cut_from_orf_of_origin_gap_with_side_below_minimum") is True
+    return False
 
 
 # ---------------------------------------------------------------------------
@@ -447,24 +450,20 @@ def gene_extents(parts, strand, length):
     return [(min(s for s, _ in upper), length), (0, max(e for _, e in lower))], True
 
 
-def _regressing_genes(spans, allowance):
-    """ genes that (in sorted order) end before the furthest end of the genes sorted before them while
-        either opening a gap or containing that furthest end minus the allowance: the places where a
-        walk that forgets the furthest end would fall back """
+def _genes_ending_inside_earlier(spans):
+    """ genes that (in sorted order) end before the furthest end of the genes sorted before them """
     reach = None
     out = []
     for start, end in sorted(spans):
         if reach is not None and end < reach:
-            last = reach - allowance
-            if start + allowance > last or start <= last <= end:
-                out.append((start, end))
+            out.append((start, end))
         reach = end if reach is None else max(reach, end)
     return out
 
 
-def _precedes_regressing(extent, regressing):
-    """ the gene extent is sorted before a regressing gene and ends after it """
-    return any(extent < other and extent[1] > other[1] for other in regressing)
+def _contains_later_end(extent, nested_ends):
+    """ the gene extent is sorted before such a gene and ends after it """
+    return any(extent < other and extent[1] > other[1] for other in nested_ends)
 
 
 def reference_windows(length, extents, area, minimum, allowance):
@@ -493,6 +492,8 @@ def reference_windows(length, extents, area, minimum, allowance):
 
 
 def evaluate_find(ctx, case):
+    """ one call of the real find_all_orfs on a generated layout; returns True when the reference
+        expects at least one ORF """
     seq = case["seq"]
     length = len(seq)
     circular = case["circular"]
@@ -511,16 +512,20 @@ def evaluate_find(ctx, case):
     extents_per_gene = [gene_extents(parts, strand, length) for parts, strand in genes]
     extents = [ext for exts, _ in extents_per_gene for ext in exts]
     windows, segments = reference_windows(length, extents, area, minimum, allowance)
-    scope = [(s, e) for s, e in extents if any(s < hi and e > lo for lo, hi in segments)]
-    origin_gene_in_scope = any(spanning and any(s < hi and e > lo for s, e in exts for lo, hi in segments)
-                               for exts, spanning in extents_per_gene)
-    regressing = [g for lo, hi in segments
-                  for g in _regressing_genes([(s, e) for s, e in scope if s < hi and e > lo], allowance)]
-    regression = bool(regressing)
+
+    def in_scope(ext):
+        return any(ext[0] < hi and ext[1] > lo for lo, hi in segments)
+
+    scope = [ext for ext in extents if in_scope(ext)]
+    origin_gene_in_scope = any(spanning and any(in_scope(ext) for ext in exts) for exts, spanning in extents_per_gene)
+    nested_ends = [g for lo, hi in segments
+                   for g in _genes_ending_inside_earlier([(s, e) for s, e in scope if s < hi and e > lo])]
+    short_gene = any(sum(e - s for s, e in exts) <= 2 * allowance and any(in_scope(ext) for ext in exts)
+                     for exts, _ in extents_per_gene)
     area_kind = "none" if area is None else ("simple" if area[0] < area[1] else "origin-spanning")
     base = {"L": length, "circular": circular, "area": area_kind, "minimum_length": minimum,
             "max_overlap": allowance, "genes": len(genes), "origin_spanning_gene_in_scope": origin_gene_in_scope,
-            "gene_end_regression": regression}
+            "later_gene_ends_inside_earlier_gene": bool(nested_ends)}
 
     # what the reference expects
     expected: dict = {}
@@ -537,24 +542,27 @@ def evaluate_find(ctx, case):
                 else:
                     reading = [positions[wlen - 1 - i] for i in range(start, end)]
                 key = (frozenset(reading), direction)
-                expected.setdefault(key, {"nuc": scanned[start:end].upper(), "stop_at": reading[-1], "count": 0,
-                                          "notes": notes, "wraps": any(reading[i + 1] - reading[i] != direction
-                                                                       for i in range(len(reading) - 1))})
-                expected[key]["count"] += 1
+                entry = expected.setdefault(key, {"nuc": scanned[start:end].upper(), "count": 0, "notes": notes,
+                                                  "wraps": any(reading[i + 1] - reading[i] != direction
+                                                               for i in range(len(reading) - 1))})
+                entry["count"] += 1
 
     ctx.count("op:find_all_orfs")
     ctx.count("area:" + area_kind)
     try:
         features = find_all_orfs(record, area_feature, min_length=minimum, max_overlap=allowance)
     except Exception as err:  # pylint: disable=broad-except
-        import traceback
         frames = traceback.extract_tb(err.__traceback__)
-        near_origin = any((0 < e <= allowance and s < e) or (length - allowance <= s < length and e <= length
-                                                             and e - s <= allowance)
-                          for s, e in scope)
+        near_origin = any(e - s <= allowance and (e <= allowance or s >= length - allowance) for s, e in scope)
         ctx.violate("find-crash", dict(base, exception=type(err).__name__, message=str(err)[:200],
                                        raised_in=frames[-1].name, short_gene_next_to_origin=near_origin), case)
         return bool(expected)
+
+    decide_gaps = not short_gene
+    if short_gene:
+        # the gaps on both sides of such a gene, each widened by the allowance, run into each other:
+        # which stretches are "the gaps" is not fixed by the property; only per-ORF clauses are decided
+        ctx.count("unspecified:gene-not-longer-than-twice-allowance")
 
     area_bases = None
     if area is not None:
@@ -565,7 +573,7 @@ def evaluate_find(ctx, case):
                    for exts, spanning in extents_per_gene]
 
     seen: dict = {}
-    exceeded: dict = {}
+    reaches_k3: dict = {}
     within_allowance = False
     for feature in features:
         loc = feature.location
@@ -573,66 +581,79 @@ def evaluate_find(ctx, case):
         strand = loc.strand
         facts = dict(base, location=str(loc), strand=strand)
         if strand not in (1, -1) or {p.strand for p in loc.parts} != {strand} or len(parts) > 2 \
-                or any(not 0 <= s < e <= length for s, e in parts):
+                or any(not 0 <= s < e <= length for s, e in parts) \
+                or (len(parts) == 2 and (sorted(parts)[0][0] != 0 or sorted(parts)[1][1] != length)):
             ctx.violate("find-illformed-location", facts, case)
             continue
-        reading = R.read_positions(parts, strand)
-        bases = frozenset(reading)
-        nuc = R.read_sequence(seq, parts, strand).upper()
+        bases = frozenset(R.read_positions(parts, strand))
+        as_reported = R.read_sequence(seq, parts, strand).upper()
         wraps = len(parts) > 1
         facts.update(orf_len=len(bases), orf_wraps=wraps)
         key = (bases, strand)
         seen[key] = seen.get(key, 0) + 1
 
-        # allowance against every gene
-        excess = []  # per gene overlapped too far: is it one a regressing gene falls back into?
+        # per-gene facts
+        into_origin_gene = False
+        into_k3_gene = False
         for gene_bases, exts, spanning in extent_sets:
             shared = len(bases & gene_bases)
-            if 0 < shared <= allowance:
+            if not shared:
+                continue
+            contains_later_end = (not spanning) and _contains_later_end(tuple(exts[0]), nested_ends)
+            into_origin_gene = into_origin_gene or spanning
+            into_k3_gene = into_k3_gene or contains_later_end
+            if shared <= allowance:
                 within_allowance = True
-            if shared > allowance:
-                explained = (not spanning) and _precedes_regressing(tuple(exts[0]), regressing)
-                excess.append(explained)
+            else:
                 ctx.violate("find-overlap-exceeds-allowance",
                             dict(facts, overlap=shared, gene_extents=exts, overlapped_gene_spans_origin=spanning,
-                                 overlapped_gene_precedes_regressing_gene=explained), case)
-        exceeded[key] = bool(excess) and all(excess)
+                                 overlapped_gene_contains_later_gene_end=contains_later_end), case)
+        reaches_k3[key] = into_k3_gene
         if area_bases is not None and not bases <= area_bases:
             ctx.violate("find-outside-area", dict(facts, outside=len(bases - area_bases)), case)
         if len(bases) < minimum:
             ctx.violate("find-shorter-than-minimum", facts, case)
 
+        # is it an ORF, and one of the expected ones?
         ref = expected.get(key)
-        if ref is None:
-            reason = R.is_orf(nuc)
-            over = [len(bases & g) for g, _, _ in extent_sets]
-            extra = {"excess_only_into_genes_preceding_regressing_gene": exceeded[key],
-                     "overlap": max(over, default=0),
-                     "overlapped_gene_spans_origin": any(sp and len(bases & g) > allowance for g, _, sp in extent_sets)}
+        if ref is not None:
+            if as_reported != ref["nuc"]:
+                ctx.violate("find-extract-mismatch", dict(facts, read=as_reported[:60], orf=ref["nuc"][:60],
+                                                          **_part_order_facts(seq, parts, strand, ref["nuc"])), case)
+        else:
+            reason = R.is_orf(as_reported)
+            if reason is not None and wraps:
+                swapped = R.read_sequence(seq, parts[::-1], strand).upper()
+                if R.is_orf(swapped) is None:
+                    ctx.violate("find-extract-mismatch", dict(facts, read=as_reported[:60], orf=swapped[:60],
+                                                              **_part_order_facts(seq, parts, strand, swapped)), case)
+                    reason = None
             if reason is not None:
-                ctx.violate("find-not-an-orf", dict(facts, reason=reason, read=nuc[:60], **extra,
-                                                    **_part_order_facts(seq, parts, strand, "")), case)
-                continue
-            ctx.violate("find-unexpected-orf", dict(facts, read=nuc[:60], **extra), case)
-        elif nuc != ref["nuc"]:
-            ctx.violate("find-extract-mismatch", dict(facts, read=nuc[:60], orf=ref["nuc"][:60],
-                                                      **_part_order_facts(seq, parts, strand, ref["nuc"])), case)
-            continue
-        # translation of its own nucleotides
+                ctx.violate("find-not-an-orf", dict(facts, reason=reason, read=as_reported[:60]), case)
+            elif decide_gaps:
+                longer = [k for k in expected if k[1] == strand and bases < k[0]]
+                ctx.violate("find-unexpected-orf",
+                            dict(facts, read=as_reported[:60],
+                                 reaches_into_origin_spanning_gene=into_origin_gene,
+                                 reaches_into_gene_containing_later_gene_end=into_k3_gene,
+                                 cut_from_orf_of_origin_gap_with_side_below_minimum=any(
+                                     expected[k]["notes"]["through_origin"] and expected[k]["notes"]["short_side"]
+                                     for k in longer)), case)
+
+        # translation of the location as reported (whatever it reads), first residue M
         ctx.count("op:translation")
-        body = nuc[:-3] if nuc[-3:] in R.STOPS else nuc
-        protein = R.translate_until_stop(body)
+        protein = R.translate_until_stop(as_reported) or R.translate(as_reported)
         want = "M" + protein[1:]
         if feature.translation != want:
             ctx.violate("find-translation-mismatch", dict(facts, translation=feature.translation[:40],
-                                                          expected=want[:40], read=nuc[:60]), case)
+                                                          expected=want[:40], read=as_reported[:60]), case)
         ctx.count("op:biopython_extract")
         try:
             bio = str(loc.extract(Seq(seq))).upper()
         except Exception as err:  # pylint: disable=broad-except
             bio = f"<{type(err).__name__}>"
-        if bio != nuc:
-            ctx.violate("find-biopython-extract-mismatch", dict(facts, read=bio[:60], own=nuc[:60]), case)
+        if bio != as_reported:
+            ctx.violate("find-biopython-extract-mismatch", dict(facts, read=bio[:60], own=as_reported[:60]), case)
     if within_allowance:
         ctx.count("layout:orf-overlaps-gene-within-allowance")
 
@@ -644,16 +665,17 @@ def evaluate_find(ctx, case):
                 ctx.count("observed:same-orf-returned-twice" if seen[key] > ref["count"]
                           else "observed:orf-in-two-overlapping-gaps")
             continue
-        # is a longer version with the same stop reported, and does it run too far into a gene?
-        extended = [k for k in seen if k[1] == strand and bases < k[0]]
-        extended_exceeds = any(exceeded.get(k) for k in extended)
+        if not decide_gaps:
+            continue
+        longer = [k for k in seen if k[1] == strand and bases < k[0]]
         ctx.violate("find-missing-orf",
                     dict(base, strand=strand, orf_len=len(bases), orf_wraps=ref["wraps"],
                          orf=[min(bases), max(bases) + 1] if not ref["wraps"] else "wrapped",
                          gap_through_origin=ref["notes"]["through_origin"],
                          gap_side_shorter_than_minimum=ref["notes"]["short_side"],
-                         extended_version_reported=bool(extended),
-                         extended_version_exceeds_into_gene_preceding_regressing_gene=extended_exceeds), case)
+                         longer_version_reported=bool(longer),
+                         longer_version_reaches_into_gene_containing_later_gene_end=any(reaches_k3.get(k)
+                                                                                         for k in longer)), case)
     return bool(expected)
 
 
@@ -687,14 +709,14 @@ def gen_find_case(rng):
     previous = None
     for _ in range(count):
         strand = rng.choice([1, -1])
-        kind = rng.choice(["plain", "plain", "plain", "short", "at-start", "at-end", "nested", "tail", "tail",
-                           "two-exon", "origin"])
+        kind = rng.choice(["plain", "plain", "plain", "plain", "at-start", "at-end", "nested", "tail", "tail",
+                           "two-exon", "origin", "origin"] + (["short"] if rng.random() < 0.3 else []))
         if kind in ("nested", "tail") and previous is None:
             kind = "plain"
         if kind == "origin" and (not circular or any(len(g["parts"]) > 1 and g.get("origin") for g in genes)):
             kind = "plain"
         if kind == "plain":
-            size = rng.randrange(12, max(13, length // 3))
+            size = rng.randrange(2 * allowance + 6, max(2 * allowance + 7, length // 3))
             start = snap(rng.randrange(0, max(1, length - size)))
             span = (start, min(length, start + size))
             add([span], strand)
